@@ -124,3 +124,6 @@ PROP = {'title': 'Generic operations conserve values: rvalues moved once, lvalue
                  'expected; any other exception is a violation']}
 
 PROP['rule'] += " Second binary C05t (same sources, -DC05_THROWING_MOVE): the element's move constructor is potentially throwing, shapes have at most one element; a copy is a violation only in cases where a single tracked element exists (std::vector's own reallocation copies such elements otherwise), so library sites that choose copy over move by noexcept-ness (std::move_if_noexcept) are reported. move_if<Cond> for both conditions x 3 argument categories."
+
+PROP['level_note'] += ('; a second binary (C05t) repeats every case with an element type whose move constructor may throw, shapes of at most '
+                       'one element, and judges copies only where a single tracked element exists')
